@@ -51,6 +51,23 @@ func (f *TMemoryOutputBuffer) Write(buf []byte) (int, error) {
 	return f.TMemoryBuffer.Write(buf)
 }
 
+// WriteString and WriteByte are promoted from the embedded bytes.Buffer and
+// are what the Thrift protocols call for strings and single bytes; route them
+// through Write so they are subject to the size limit too.
+
+// WriteString writes the string to the buffer. Returns ErrTooLarge if the
+// write would cause the buffer to exceed its limit.
+func (f *TMemoryOutputBuffer) WriteString(s string) (int, error) {
+	return f.Write([]byte(s))
+}
+
+// WriteByte writes the byte to the buffer. Returns ErrTooLarge if the write
+// would cause the buffer to exceed its limit.
+func (f *TMemoryOutputBuffer) WriteByte(c byte) error {
+	_, err := f.Write([]byte{c})
+	return err
+}
+
 // Reset clears the buffer
 func (f *TMemoryOutputBuffer) Reset() {
 	f.TMemoryBuffer.Reset()
